@@ -1,4 +1,5 @@
 import NxModel.Bytes
+import NxModel.Nex.RmcServer
 /-!
 # Reading the parameters of an RMC request — the NESTED framing of a request body (C11)
 
@@ -74,16 +75,6 @@ def utf8Valid : Bytes → Bool
 /-- the UTF-8 bytes of `s[:-1]` for valid UTF-8 `s` -/
 def dropLastChar (b : Bytes) : Bytes := ((b.reverse.dropWhile cont).drop 1).reverse
 
-/-- `StreamIn.string`: `none` = Python `None` -/
-def decStr (b : Bytes) : Except Err (Option Bytes × Bytes) :=
-  match rdU16 b with
-  | .error e => .error e
-  | .ok (n, r) =>
-    if n = 0 then .ok (none, r)
-    else match rd n r with
-      | .error e => .error e
-      | .ok (d, r') => if utf8Valid d then .ok (some (dropLastChar d), r') else .error .unicode
-
 /-- `s.split(sep)` for a one- or two-byte separator -/
 def splitGo (sep : Bytes) : Nat → Bytes → Bytes → List Bytes
   | 0, _, acc => [acc.reverse]
@@ -112,160 +103,134 @@ def parseUrl : Option Bytes → Except Err Unit
       else .ok ()
     | _ => .error .value
 
-/-! ## primitives -/
+/-! ## readers
 
-def decBuf (b : Bytes) : Except Err (Bytes × Bytes) :=
-  match rdU32 b with
-  | .error e => .error e
-  | .ok (n, r) => rd n r
+A reader takes the bytes that are left and returns a value and the bytes left after it, or the exception. All readers
+below are built from `rd` / `rdU8..64` with `seq` (do this, then that on what is left), `lift` (a computation that does not
+touch the stream — e.g. everything done on the COPY a `substream()` made) and `map`: that is what makes the framing
+theorems (`NxProofs/RmcRequest.lean`: `Local`) compositional. -/
 
-def decQBuf (b : Bytes) : Except Err (Bytes × Bytes) :=
-  match rdU16 b with
+abbrev Rd (α : Type) := Bytes → Except Err (α × Bytes)
+
+def Rd.pure {α : Type} (a : α) : Rd α := fun b => .ok (a, b)
+def Rd.fail {α : Type} (e : Err) : Rd α := fun _ => .error e
+def Rd.lift {α : Type} (x : Except Err α) : Rd α := fun b => match x with | .ok a => .ok (a, b) | .error e => .error e
+def Rd.seq {α β : Type} (f : Rd α) (g : α → Rd β) : Rd β := fun b =>
+  match f b with
   | .error e => .error e
-  | .ok (n, r) => rd n r
+  | .ok (a, r) => g a r
+def Rd.map {α β : Type} (h : α → β) (f : Rd α) : Rd β := f.seq fun a => Rd.pure (h a)
+
+/-- `stream.read(n)` -/
+def rdN (n : Nat) : Rd Bytes := rd n
+
+/-- `StreamIn.string`: `none` = Python `None`; strict UTF-8, then `[:-1]` -/
+def decStr : Rd (Option Bytes) :=
+  Rd.seq rdU16 fun n =>
+    if n = 0 then Rd.pure none
+    else Rd.seq (rdN n) fun d => if utf8Valid d then Rd.pure (some (dropLastChar d)) else Rd.fail .unicode
+
+/-- `stream.buffer()` — also the first half of `stream.substream()`, which wraps these bytes (a copy) in a new stream -/
+def decBuf : Rd Bytes := Rd.seq rdU32 rdN
+def decQBuf : Rd Bytes := Rd.seq rdU16 rdN
 
 def signed (bits n : Nat) : Int := if n ≥ 2 ^ (bits - 1) then (n : Int) - (2 : Int) ^ bits else (n : Int)
 
-def mapOk {α β : Type} (f : α → β) (x : Except Err (α × Bytes)) : Except Err (β × Bytes) :=
-  match x with | .ok (a, r) => .ok (f a, r) | .error e => .error e
+def strVal : Option Bytes → Val | some s => .str s | none => .none
 
-def decVariant (b : Bytes) : Except Err (Val × Bytes) :=
-  match rdU8 b with
-  | .error e => .error e
-  | .ok (t, r) =>
-    if t = 0 then .ok (.none, r)
-    else if t = 1 then mapOk (fun (n : Nat) => .int (signed 64 n)) (rdU64 r)
-    else if t = 2 then mapOk .f64 (rdU64 r)
-    else if t = 3 then mapOk (fun n => .bool (n != 0)) (rdU8 r)
-    else if t = 4 then mapOk (fun s => match s with | some s => .str s | none => .none) (decStr r)
-    else if t = 5 then mapOk .dt (rdU64 r)
-    else if t = 6 then mapOk (fun (n : Nat) => .int n) (rdU64 r)
-    else .error .value
+def decVariant : Rd Val :=
+  Rd.seq rdU8 fun t =>
+    if t = 0 then Rd.pure .none
+    else if t = 1 then Rd.map (fun (n : Nat) => Val.int (signed 64 n)) rdU64
+    else if t = 2 then Rd.map Val.f64 rdU64
+    else if t = 3 then Rd.map (fun (n : Nat) => Val.bool (n != 0)) rdU8
+    else if t = 4 then Rd.map strVal decStr
+    else if t = 5 then Rd.map Val.dt rdU64
+    else if t = 6 then Rd.map (fun (n : Nat) => Val.int n) rdU64
+    else Rd.fail .value
 
 /-- `[func() for i in range(count)]` -/
-def decList (f : Bytes → Except Err (Val × Bytes)) : Nat → Bytes → Except Err (List Val × Bytes)
-  | 0, b => .ok ([], b)
-  | n + 1, b =>
-    match f b with
-    | .error e => .error e
-    | .ok (v, r) => match decList f n r with
-      | .error e => .error e
-      | .ok (vs, r') => .ok (v :: vs, r')
+def decList (f : Rd Val) : Nat → Rd (List Val)
+  | 0 => Rd.pure []
+  | n + 1 => Rd.seq f fun v => Rd.map (v :: ·) (decList f n)
 
-def decPairs (fk fv : Bytes → Except Err (Val × Bytes)) : Nat → Bytes → Except Err (List (Val × Val) × Bytes)
-  | 0, b => .ok ([], b)
-  | n + 1, b =>
-    match fk b with
-    | .error e => .error e
-    | .ok (k, r) => match fv r with
-      | .error e => .error e
-      | .ok (v, r') => match decPairs fk fv n r' with
-        | .error e => .error e
-        | .ok (kvs, r'') => .ok ((k, v) :: kvs, r'')
+def decPairs (fk fv : Rd Val) : Nat → Rd (List (Val × Val))
+  | 0 => Rd.pure []
+  | n + 1 => Rd.seq fk fun k => Rd.seq fv fun v => Rd.map ((k, v) :: ·) (decPairs fk fv n)
 
 /-- reading a whole structure instance of class `id` (`stream.extract(cls)`): supplied by `decObj` -/
-abbrev Hook := Nat → Bytes → Except Err (List Val × Bytes)
+abbrev Hook := Nat → Rd (List Val)
 
 def lookupName (reg : List (Bytes × Nat)) (s : Bytes) : Option Nat :=
   match reg with
   | [] => none
   | (n, id) :: r => if n = s then some id else lookupName r s
 
-def decTy (R : Hook) (env : Env) : Ty → Bytes → Except Err (Val × Bytes)
-  | .u8, b => mapOk (fun (n : Nat) => .int n) (rdU8 b)
-  | .u16, b => mapOk (fun (n : Nat) => .int n) (rdU16 b)
-  | .u32, b => mapOk (fun (n : Nat) => .int n) (rdU32 b)
-  | .u64, b => mapOk (fun (n : Nat) => .int n) (rdU64 b)
-  | .s8, b => mapOk (fun (n : Nat) => .int (signed 8 n)) (rdU8 b)
-  | .s16, b => mapOk (fun (n : Nat) => .int (signed 16 n)) (rdU16 b)
-  | .s32, b => mapOk (fun (n : Nat) => .int (signed 32 n)) (rdU32 b)
-  | .s64, b => mapOk (fun (n : Nat) => .int (signed 64 n)) (rdU64 b)
-  | .float, b => mapOk .f32 (rdU32 b)
-  | .double, b => mapOk .f64 (rdU64 b)
-  | .bool, b => mapOk (fun n => .bool (n != 0)) (rdU8 b)
-  | .string, b => mapOk (fun s => match s with | some s => .str s | none => .none) (decStr b)
-  | .buffer, b => mapOk .bytes (decBuf b)
-  | .qbuffer, b => mapOk .bytes (decQBuf b)
-  | .datetime, b => mapOk .dt (rdU64 b)
-  | .result, b => mapOk .res (rdU32 b)
-  | .stationurl, b =>
-    (match decStr b with
-     | .error e => .error e
-     | .ok (s, r) => match parseUrl s with
-       | .error e => .error e
-       | .ok () => .ok (.url, r))
-  | .variant, b => decVariant b
-  | .list t, b =>
-    (match rdU32 b with
-     | .error e => .error e
-     | .ok (n, r) => mapOk .list (decList (decTy R env t) n r))
-  | .map k v, b =>
-    (match rdU32 b with
-     | .error e => .error e
-     | .ok (n, r) => mapOk .map (decPairs (decTy R env k) (decTy R env v) n r))
-  | .struct id, b => mapOk .obj (R id b)
-  | .anydata, b =>
-    -- DataHolder.decode: name, substream().substream(), then object_map[name], then extract from the inner copy
-    match decStr b with
-    | .error e => .error e
-    | .ok (nm, r) =>
-      match decBuf r with
-      | .error e => .error e
-      | .ok (outer, r') =>
-        match decBuf outer with
+/-- `DataHolder.decode` once the name and the outer frame have been taken from the stream: everything else happens on
+    copies — the inner frame is cut from the outer one, `object_map[name]` is looked up, the structure is read from the
+    inner copy (whatever of either copy is left over is ignored) -/
+def holderBody (R : Hook) (env : Env) (nm : Option Bytes) (outer : Bytes) : Except Err Val :=
+  match decBuf outer with
+  | .error e => .error e
+  | .ok (inner, _) =>
+    match nm with
+    | none => .error .key
+    | some s =>
+      match lookupName env.registry s with
+      | none => .error .key
+      | some id =>
+        match R id inner with
         | .error e => .error e
-        | .ok (inner, _) =>
-          match nm with
-          | none => .error .key
-          | some s =>
-            match lookupName env.registry s with
-            | none => .error .key
-            | some id =>
-              match R id inner with
-              | .error e => .error e
-              | .ok (fs, _) => .ok (.any s fs, r')
+        | .ok (fs, _) => .ok (.any s fs)
 
-/-- a `load` body run on stream `b` with the given `version` -/
-def decItems (R : Hook) (env : Env) (ver : Nat) : Items → Bytes → Except Err (List Val × Bytes)
-  | .nil, b => .ok ([], b)
-  | .field t rest, b =>
-    (match decTy R env t b with
-     | .error e => .error e
-     | .ok (v, b1) => match decItems R env ver rest b1 with
-       | .error e => .error e
-       | .ok (vs, b2) => .ok (v :: vs, b2))
-  | .rev k body rest, b =>
-    if ver ≥ k then
-      (match decItems R env ver body b with
-       | .error e => .error e
-       | .ok (vs1, b1) => match decItems R env ver rest b1 with
-         | .error e => .error e
-         | .ok (vs2, b2) => .ok (vs1 ++ vs2, b2))
-    else decItems R env ver rest b
+def decTy (R : Hook) (env : Env) : Ty → Rd Val
+  | .u8 => Rd.map (fun (n : Nat) => Val.int n) rdU8
+  | .u16 => Rd.map (fun (n : Nat) => Val.int n) rdU16
+  | .u32 => Rd.map (fun (n : Nat) => Val.int n) rdU32
+  | .u64 => Rd.map (fun (n : Nat) => Val.int n) rdU64
+  | .s8 => Rd.map (fun (n : Nat) => Val.int (signed 8 n)) rdU8
+  | .s16 => Rd.map (fun (n : Nat) => Val.int (signed 16 n)) rdU16
+  | .s32 => Rd.map (fun (n : Nat) => Val.int (signed 32 n)) rdU32
+  | .s64 => Rd.map (fun (n : Nat) => Val.int (signed 64 n)) rdU64
+  | .float => Rd.map Val.f32 rdU32
+  | .double => Rd.map Val.f64 rdU64
+  | .bool => Rd.map (fun (n : Nat) => Val.bool (n != 0)) rdU8
+  | .string => Rd.map strVal decStr
+  | .buffer => Rd.map Val.bytes decBuf
+  | .qbuffer => Rd.map Val.bytes decQBuf
+  | .datetime => Rd.map Val.dt rdU64
+  | .result => Rd.map Val.res rdU32
+  | .stationurl => Rd.seq decStr fun s => Rd.lift (match parseUrl s with | .ok () => .ok Val.url | .error e => .error e)
+  | .variant => decVariant
+  | .list t => Rd.seq rdU32 fun n => Rd.map Val.list (decList (decTy R env t) n)
+  | .map k v => Rd.seq rdU32 fun n => Rd.map Val.map (decPairs (decTy R env k) (decTy R env v) n)
+  | .struct id => Rd.map Val.obj (R id)
+  | .anydata => Rd.seq decStr fun nm => Rd.seq decBuf fun outer => Rd.lift (holderBody R env nm outer)
+
+/-- a `load` body run with the given `version` -/
+def decItems (R : Hook) (env : Env) (ver : Nat) : Items → Rd (List Val)
+  | .nil => Rd.pure []
+  | .field t rest => Rd.seq (decTy R env t) fun v => Rd.map (v :: ·) (decItems R env ver rest)
+  | .rev k body rest =>
+    if ver ≥ k then Rd.seq (decItems R env ver body) fun vs => Rd.map (vs ++ ·) (decItems R env ver rest)
+    else decItems R env ver rest
+
+/-- `load` on the COPY of a frame: the attribute values, or the exception; bytes the fields leave over are ignored
+    ("Struct has unexpected size": a warning only) -/
+def loadFrame (R : Hook) (env : Env) (ver : Nat) (items : Items) (frame : Bytes) : Except Err (List Val) :=
+  match decItems R env ver items frame with
+  | .error e => .error e
+  | .ok (vs, _) => .ok vs
 
 /-- one iteration of the hierarchy loop of `Structure.decode`: with structure headers the class's part is a frame
-    `u8 version, u32 size, size bytes`; `load` reads from a COPY of those `size` bytes (left-over bytes: warning only) -/
-def decLevel (R : Hook) (env : Env) (hdr : Bool) (items : Items) (b : Bytes) : Except Err (List Val × Bytes) :=
-  if hdr then
-    match rdU8 b with
-    | .error e => .error e
-    | .ok (ver, r) =>
-      match decBuf r with
-      | .error e => .error e
-      | .ok (frame, r') =>
-        match decItems R env ver items frame with
-        | .error e => .error e
-        | .ok (vs, _) => .ok (vs, r')
-  else decItems R env 0 items b
+    `u8 version, u32 size, size bytes` and `load` reads from a COPY of those `size` bytes -/
+def decLevel (R : Hook) (env : Env) (hdr : Bool) (items : Items) : Rd (List Val) :=
+  if hdr then Rd.seq rdU8 fun ver => Rd.seq decBuf fun frame => Rd.lift (loadFrame R env ver items frame)
+  else decItems R env 0 items
 
-def decLevels (R : Hook) (env : Env) (hdr : Bool) : List Items → Bytes → Except Err (List Val × Bytes)
-  | [], b => .ok ([], b)
-  | l :: ls, b =>
-    match decLevel R env hdr l b with
-    | .error e => .error e
-    | .ok (vs, b1) => match decLevels R env hdr ls b1 with
-      | .error e => .error e
-      | .ok (ws, b2) => .ok (vs ++ ws, b2)
+def decLevels (R : Hook) (env : Env) (hdr : Bool) : List Items → Rd (List Val)
+  | [] => Rd.pure []
+  | l :: ls => Rd.seq (decLevel R env hdr l) fun vs => Rd.map (vs ++ ·) (decLevels R env hdr ls)
 
 def lookupStruct (structs : List (Nat × List Items)) (id : Nat) : Option (List Items) :=
   match structs with
@@ -274,28 +239,44 @@ def lookupStruct (structs : List (Nat × List Items)) (id : Nat) : Option (List 
 
 /-- `stream.extract(cls)`; the fuel bounds the nesting depth of structure instances (never reached by the harness) -/
 def decObj (env : Env) (hdr : Bool) : Nat → Hook
-  | 0, _, _ => .error .other
-  | f + 1, id, b =>
+  | 0, _ => Rd.fail .other
+  | f + 1, id =>
     match lookupStruct env.structs id with
-    | none => .error .other
-    | some levels => decLevels (decObj env hdr f) env hdr levels b
+    | none => Rd.fail .other
+    | some levels => decLevels (decObj env hdr f) env hdr levels
 
 def fuel : Nat := 64
 
-/-- the `input.<type>(...)` statements of a generated handler, in order; left-over input is not looked at -/
-def decArgs (R : Hook) (env : Env) : List Ty → Bytes → Except Err (List Val × Bytes)
-  | [], b => .ok ([], b)
-  | t :: ts, b =>
-    match decTy R env t b with
-    | .error e => .error e
-    | .ok (v, r) => match decArgs R env ts r with
-      | .error e => .error e
-      | .ok (vs, r') => .ok (v :: vs, r')
+/-- the `input.<type>(...)` statements of a generated handler, in order -/
+def decArgs (R : Hook) (env : Env) : List Ty → Rd (List Val)
+  | [] => Rd.pure []
+  | t :: ts => Rd.seq (decTy R env t) fun v => Rd.map (v :: ·) (decArgs R env ts)
 
-/-- what reading the parameters of a request with body `b` does: the argument values, or the exception -/
+/-- what reading the parameters of a request with body `b` does: the argument values, or the exception
+    (left-over input is not looked at) -/
 def readRequest (env : Env) (hdr : Bool) (tys : List Ty) (b : Bytes) : Except Err (List Val) :=
   match decArgs (decObj env hdr fuel) env tys b with
   | .error e => .error e
   | .ok (vs, _) => .ok vs
+
+/-- how the `except` clauses of `handle_request` see the reader's exception -/
+def excOf : Err → RmcServer.Exc
+  | .key => .keyError
+  | .type => .typeError
+  | .index => .indexError
+  | _ => .other
+
+/-- the `extract` argument of `RmcServer.generatedHandle` / `invoked` / `dispatch`, computed from the request's own body -/
+def extractOf (env : Env) (hdr : Bool) (tys : List Ty) (body : Bytes) : Option RmcServer.Exc :=
+  match readRequest env hdr tys body with
+  | .ok _ => none
+  | .error e => some (excOf e)
+
+/-- the PythonCore error code (with the error bit) the reader's exception is answered with -/
+def errCode : Err → Nat
+  | .key => 0x80040007
+  | .type => 0x80040002
+  | .index => 0x80040003
+  | _ => 0x80040001
 
 end Nx.RmcRequest
